@@ -14,6 +14,10 @@
 (*   all classes whatever their metaclass.  The field exists so that model   *)
 (*   trees / recorded trees name such classes and the real-code side builds  *)
 (*   them.                                                                   *)
+(*   T.fl[n] = 1: class n defines `__len__` returning 0, so its instances    *)
+(*   (and those of its subclasses) are FALSY objects.  Likewise read by no   *)
+(*   operator: an instance-level set / unset stays instance-level and an     *)
+(*   instance resolves through its class whatever its truth value.           *)
 (*                                                                         *)
 (* Settings: rm = class-wide / instance render method (set_render_method),  *)
 (*           fs = forced_support, jq = jpeg_quality, rf = read_from_file,   *)
@@ -72,6 +76,8 @@ WellFormedTree(T) ==
   /\ \A n \in 2..Len(T.par) : T.par[n] \in 1..(n - 1) /\ IsClass(T, T.par[n])
   /\ Len(T.dm) = Len(T.par)
   /\ \A n \in 1..Len(T.par) : T.dm[n] \in {0, 1} /\ (T.dm[n] = 1 => n # 1 /\ IsClass(T, n))
+  /\ Len(T.fl) = Len(T.par)
+  /\ \A n \in 1..Len(T.par) : T.fl[n] \in {0, 1} /\ (T.fl[n] = 1 => n # 1 /\ IsClass(T, n))
 
 RECURSIVE Anc(_, _)
 Anc(T, n) == IF T.par[n] = 0 THEN {} ELSE {T.par[n]} \cup Anc(T, T.par[n])
